@@ -756,6 +756,16 @@ theorem every_pointer_member_handled :
 theorem only_switch_keys_are_addresses : Gen.C17.intptrOperands = modelIntptrOperands := by
   decide
 
+/-- **every_block_pointer_recreated**: every pointer stored inside the saved program block — the pointer-typed members of
+    the structures that live there and the elements of the `char **` tables, read from lib/lpc/program.h on every run — is
+    one of the four the model knows, and `load_binary` assigns each of them after reading the block (assignments read from
+    load_binary).  A new pointer member in one of these structures, or a dropped re-creation, breaks the obligation. -/
+theorem every_block_pointer_recreated :
+    (∀ p, p ∈ Gen.C17.blockStructPointers ++ Gen.C17.blockPointerTables → p ∈ modelBlockPointers) ∧
+      (∀ p, p ∈ modelBlockPointers → p ∈ Gen.C17.blockPointersRecreated) ∧
+      (∀ p, p ∈ modelBlockPointers → p ∈ Gen.C17.blockStructPointers ++ Gen.C17.blockPointerTables) := by
+  decide
+
 /-- **patch_offsets_read_unsigned**: with the C types read from the source on this run — the 16-bit entry the code
     generator records, the cast through which patch_out and patch_in read it, the type of the table bounds — every program
     offset below 65536 arrives unchanged (in particular offsets and tables above 32767 are not sign-extended), on the
